@@ -183,3 +183,155 @@ Theorem TIE_append_protocol_inv_partial : forall n N ix segs st tr0 c0 pb cb L S
   exists L' cb', level_at st' N pb cb' L' /\ inv L' (S0 ++ segs) /\ run_segs L (zlen S0) segs = Some L'.
 Proof. exact GenAppend_protocol.emitted_protocol_inv. Qed.
 Print Assumptions TIE_append_protocol_inv_partial.
+
+(** ** second round: every mode list; declarations and cleanup on the machine; the whole life of a
+       compressed output vector from the harness' initial state; compute kernels; bucket outputs *)
+
+From TV Require Import proofs.GenAppend_decl proofs.Certs.
+From TV Require proofs.Certs2Store spec.IRRun.
+
+Theorem TIE_append_declarations_all : forall cap ao kt, KernelType_is_assemble kt = true ->
+  let t := AppendOutput_output ao in
+  option_map sb_lines (AppendOutput_write_declarations cap ao kt)
+  = obind (decl_layers cap t 0 (Tensor_modes t) true)
+          (fun '(l, ad) => Some (l ++ decl_vals_stmts (Tensor_name t) (vals_size_of cap t ad))%list).
+Proof. exact GenAppend_decl.gen_declarations_all. Qed.
+Print Assumptions TIE_append_declarations_all.
+
+Theorem TIE_append_cleanup_all : forall ao kt, KernelType_is_assemble kt = true ->
+  let t := AppendOutput_output ao in
+  option_map sb_lines (AppendOutput_write_cleanup ao kt)
+  = obind (cleanup_layers t 0 (Tensor_modes t) (IntegerLiteral 1) (IntegerLiteral 1) true)
+          (fun '(l, _, pd, ad) => Some (l ++ cleanup_vals_stmts (Tensor_name t) (if ad then None else Some pd))%list).
+Proof. exact GenAppend_decl.gen_cleanup_all. Qed.
+Print Assumptions TIE_append_cleanup_all.
+
+Theorem TIE_append_declarations_compute_all : forall cap ao,
+  option_map sb_lines (AppendOutput_write_declarations cap ao KernelType_compute)
+  = Some (compressed_ptr_decls (Tensor_id (AppendOutput_output ao)) 0 (Tensor_modes (AppendOutput_output ao))).
+Proof. exact GenAppend_decl.gen_declarations_compute_all. Qed.
+Print Assumptions TIE_append_declarations_compute_all.
+
+(** link to CERT_compute_store / CERT_compute: what AppendOutput contributes to a compute kernel
+    passes the syntactic conditions of the certificates, for every output format *)
+Theorem TIE_append_compute_fragments_certified : forall cap ao d c,
+  AppendOutput_write_declarations cap ao KernelType_compute = Some d ->
+  AppendOutput_write_cleanup ao KernelType_compute = Some c ->
+  no_alloc (sb_finalize d) = true /\ no_field_store (sb_finalize d) = true
+  /\ Certs2Store.store_vars (sb_finalize d) = []
+  /\ no_alloc (sb_finalize c) = true /\ no_field_store (sb_finalize c) = true
+  /\ Certs2Store.store_vars (sb_finalize c) = [].
+Proof. exact GenAppend_decl.gen_compute_fragments_certified. Qed.
+Print Assumptions TIE_append_compute_fragments_certified.
+
+Theorem TIE_append_decl_level_refines : forall n st tr0 N ps_e ps tps cap st' tr,
+  names_distinct N [] ->
+  eval st ps_e = Ok (VInt ps, tps) -> is_alloc_form ps_e = false ->
+  declared_ptr st (n_pos N) TInteger -> declared_ptr st (n_crd N) TInteger ->
+  run_block (S n) (decl_level_block N ps_e cap) st tr0 = Normal st' tr ->
+  exists L pb cb, decl_level ps (cap_value cap) = Some L
+            /\ level_at st' N pb cb L
+            /\ same_except st st' [n_poscap N; n_pos N; n_crdcap N; n_crd N; n_ptr N] []
+            /\ (cb < next_blk st')%positive /\ tensors st' = tensors st.
+Proof. exact GenAppend_decl.decl_level_refines. Qed.
+Print Assumptions TIE_append_decl_level_refines.
+
+Theorem TIE_append_cleanup_rest_refines : forall n st tr0 N name out i pb cb L st' tr,
+  names_distinct N [name] -> level_at st N pb cb L -> tensor_var st name out ->
+  run_block (S n) (cleanup_rest_block N name i) st tr0 = Normal st' tr ->
+  exists cb',
+    level_at st' N pb cb' (mkL (s_pos L) (mkBuf (b_cap (s_crd L)) (realloc (b_arr (s_crd L)) (s_cur L))) (s_cur L))
+    /\ out_level st' out i pb cb'
+    /\ (forall ts, PM.find out (tensors st) = Some ts ->
+        exists ts', PM.find out (tensors st') = Some ts' /\ t_vals ts' = t_vals ts /\ t_dims ts' = t_dims ts
+                    /\ List.length (t_idx ts') = List.length (t_idx ts))
+    /\ same_except st st' [n_crd N] [cb] /\ cb' = next_blk st.
+Proof. exact GenAppend_decl.cleanup_rest_refines. Qed.
+Print Assumptions TIE_append_cleanup_rest_refines.
+
+Theorem TIE_append_pos_shrink_refines : forall n st N prev_e prev tp pb cb L st' tr,
+  names_distinct N [] -> level_at st N pb cb L -> eval st prev_e = Ok (VInt prev, tp) ->
+  exec (S n) (Assignment (Var (n_pos N)) (ArrayReallocate (Var (n_pos N)) TInteger (Add prev_e (IntegerLiteral 1)))) st
+    = Normal st' tr ->
+  level_at st' N (next_blk st) cb
+    (mkL (mkBuf (b_cap (s_pos L)) (realloc (b_arr (s_pos L)) (prev + 1))) (s_crd L) (s_cur L))
+  /\ same_except st st' [n_pos N] [pb] /\ tensors st' = tensors st.
+Proof. exact GenAppend_decl.pos_shrink_refines. Qed.
+Print Assumptions TIE_append_pos_shrink_refines.
+
+Theorem TIE_append_cleanup_vals_refines : forall n st tr0 valscap valsv name out padded c vb B st' tr,
+  valscap <> valsv -> name <> valsv -> buf_at st valscap valsv TFloat vb B -> tensor_var st name out ->
+  (forall v t, eval st padded = Ok (v, t) -> v = VInt c) ->
+  run_block (S n) (cleanup_vals_block valsv name (Some padded)) st tr0 = Normal st' tr ->
+  buf_at st' valscap valsv TFloat (next_blk st) (mkBuf (b_cap B) (realloc (b_arr B) c))
+  /\ (forall ts, PM.find out (tensors st) = Some ts ->
+      PM.find out (tensors st') = Some (mkTensorS (t_dims ts) (t_idx ts) (VPtr (next_blk st) 0) true))
+  /\ same_except st st' [valsv] [vb] /\ 0 <= c.
+Proof. exact GenAppend_decl.cleanup_vals_refines. Qed.
+Print Assumptions TIE_append_cleanup_vals_refines.
+
+(** From the harness' initial state ([IRRun.init_state]: output struct with NULL arrays; the state in which
+    [IRSem.call] starts the body: [vector_init_is_call_state]): unpack (transcribed), the REGENERATED
+    declarations, the coordinates of a segment through the emitted append fragments and the emitted pos
+    assembly, the REGENERATED cleanup -- the output struct then points to two live blocks of exactly the
+    lengths and contents [Append.run_level] returns, for every initial capacity >= 1 (hook value or the
+    default 1024*1024). *)
+Theorem TIE_append_vector_life : forall n cap id name ix seg dims d c st' tr,
+  let t := vector_tensor id name ix in
+  let N := names_of t 0 in
+  names_distinct N [ix; name; vname (vals_capacity_name name); vname (vals_name name)] ->
+  1 <= cap_value cap ->
+  AppendOutput_write_declarations cap (MkAppendOutput t 0) KernelType_assemble = Some d ->
+  AppendOutput_write_cleanup (MkAppendOutput t 0) KernelType_assemble = Some c ->
+  run_block (S (S (S (S (S (S n)))))) (vector_body id name ix seg d c) (vector_init name dims) [] = Normal st' tr ->
+  exists pb cb ts,
+    run_level PFixed (cap_value cap) [mkVisit [seg] true] = Some ([0; zlen seg], seg)
+    /\ PM.find 1%positive (tensors st') = Some ts
+    /\ t_idx ts = [(VPtr pb 0, VPtr cb 0)]
+    /\ block_is st' pb [0; zlen seg] /\ block_is st' cb seg.
+Proof. exact GenAppend_decl.vector_life. Qed.
+Print Assumptions TIE_append_vector_life.
+
+(** ... which C02_append_protocol_wf says is a well-formed compressed level when the segment is sorted and
+    in range.  PARTIAL with respect to "every kernel": output format "s" (one compressed level, parent kind
+    PFixed), one segment, coordinates from the straight-line driver, not from the generated loops. *)
+Theorem TIE_append_vector_life_wf_partial : forall n cap id name ix seg dims d c dimsize st' tr,
+  let t := vector_tensor id name ix in
+  let N := names_of t 0 in
+  names_distinct N [ix; name; vname (vals_capacity_name name); vname (vals_name name)] ->
+  1 <= cap_value cap -> seg_okb dimsize seg = true ->
+  AppendOutput_write_declarations cap (MkAppendOutput t 0) KernelType_assemble = Some d ->
+  AppendOutput_write_cleanup (MkAppendOutput t 0) KernelType_assemble = Some c ->
+  run_block (S (S (S (S (S (S n)))))) (vector_body id name ix seg d c) (vector_init name dims) [] = Normal st' tr ->
+  exists pb cb ts,
+    PM.find 1%positive (tensors st') = Some ts /\ t_idx ts = [(VPtr pb 0, VPtr cb 0)]
+    /\ block_is st' pb [0; zlen seg] /\ block_is st' cb seg
+    /\ wf_compressedb 1 dimsize [0; zlen seg] seg = true.
+Proof. exact GenAppend_decl.vector_life_wf. Qed.
+Print Assumptions TIE_append_vector_life_wf_partial.
+
+Example TIE_append_vector_names_distinct_example :
+  names_distinct (names_of (vector_tensor "a" "a" "i") 0) ["i"%string; "a"%string; vname (vals_capacity_name "a"); vname (vals_name "a")].
+Proof.
+  unfold names_distinct. vm_compute.
+  repeat (constructor; [cbn [In]; intuition discriminate|]). constructor.
+Qed.
+
+(** ** bucket outputs: closed forms *)
+
+Theorem TIE_append_bucket_declarations_shape : forall bo rhs dims,
+  BucketOutput_dimension_names bo = Some dims ->
+  option_map sb_finalize (BucketOutput_write_declarations bo rhs)
+  = Some (bucket_init_stmt (BucketOutput_name bo) (BucketOutput_loop_name bo) rhs dims).
+Proof. exact GenAppend_decl.gen_bucket_declarations_shape. Qed.
+Print Assumptions TIE_append_bucket_declarations_shape.
+
+Theorem TIE_append_bucket_assignment_shape : forall bo rhs kt dims idxs e,
+  BucketOutput_dimension_names bo = Some dims ->
+  omap (fun layer => obind (py_getitem (Tensor_indexes (BucketOutput_output bo)) layer) (fun x => Some (Var x)))
+       (BucketOutput_layers bo) = Some idxs ->
+  BucketOutput_ravel_indexes bo dims idxs = Some e ->
+  option_map sb_finalize (BucketOutput_write_assignment bo rhs kt)
+  = Some (Block [Assignment (ArrayIndex (BucketOutput_name bo) e) (Add (ArrayIndex (BucketOutput_name bo) e) rhs)] None).
+Proof. exact GenAppend_decl.gen_bucket_assignment_shape. Qed.
+Print Assumptions TIE_append_bucket_assignment_shape.
